@@ -11,6 +11,8 @@ pub mod rng;
 pub mod sync;
 pub mod thread;
 pub mod time;
+pub mod tokio_net;
+pub mod tokio_rt;
 
 pub use fsprobe::fs_event;
 pub use kernel::{
@@ -19,3 +21,4 @@ pub use kernel::{
     now_ns, run, yield_point,
 };
 pub use rng::Choices;
+pub use tokio_rt::{block_until, tokio_shim};
